@@ -10,7 +10,7 @@ regenerated fact `Gen.keySaveVariant` (`tie_keySave`). What is proved, per varia
                      c13_files_one_epoch_exact / _partial (sharp list of good cuts per variant), c13_eviction_exact / _partial,
                      the windows that REMAIN findings under both variants, with variant-independent statements:
                        c13_window_counterexample_db_ahead, _first_dkg, _group_ahead_of_share, _leave,
-                     c13_files_one_epoch_fixed (reconcile-at-load variant), c13_resumes, c13_completion_resumes
+                     c13_resumes, c13_completion_resumes; the reconcile-at-load variant: DrandProofs/C13Reconcile.lean
   atomicRename       FULL statements: c13_save_atomic (every crash point of every Save: each key file is its complete old or
                      its complete new version, a stale temporary file is overwritten and gone afterwards), c13_no_torn_file,
                      c13_no_startup_panic_atomic, c13_no_truncated_accepted_atomic, c13_remaining_windows_atomic
@@ -54,9 +54,24 @@ theorem tie_dkgSaveCurrent :
 theorem tie_chainPut :
     Gen.trimmedPutPersist = ["Update", "tx:bucket.Put:chain.RoundToBytes(beacon.Round):beacon.Signature"] ∧
     Gen.boltPutPersist = ["Update", "tx:bucket.Put:chain.RoundToBytes(beacon.Round)"] := ⟨rfl, rfl⟩
-theorem tie_callbackStorePut : Gen.callbackStorePutPersist = callbackStorePutCalls := rfl
+/-- the base Put, then the dispatch (the repaired store of reports/cb_fix_1.diff spells the dispatch as two sends: a plain one
+for callbacks of the node itself, a non-waiting one for stream consumers) -/
+theorem tie_callbackStorePut : Gen.callbackStorePutPersist = callbackStorePutCalls ∨
+    Gen.callbackStorePutPersist = callbackStorePutCalls ++ ["dispatch"] := by decide
 theorem tie_bpLoad : Gen.bpLoadPersist = bpLoadCalls := rfl
-theorem tie_loadBeaconFromStore : Gen.loadBeaconFromStorePersist = loadBeaconFromStoreCalls := rfl
+/-- the extractor found one of the two start-up paths the model knows (it refuses anything else) … -/
+theorem tie_startupVariant : Gen.startupVariant = "asIs" ∨ Gen.startupVariant = "reconcile" := by decide
+/-- … the calls of `LoadBeaconFromStore` are the ones that variant of the model mirrors: with a completed record
+`reconcileKeyFiles` runs before `bp.Load` (or not at all), the branch without a record (v1 migration) is the same in both … -/
+theorem tie_loadBeaconFromStore : Gen.loadBeaconFromStorePersist = loadBeaconFromStoreCalls codeReconciles := by decide
+/-- … and `reconcileKeyFiles`, if the tree has it, is the function `reconcileOps` mirrors: reads, then the four early
+returns (no record / both files in sync / group file newer than the record / not a member and no files) before any write,
+`Reset` for a node outside the recorded group, else `SaveGroup`, `SaveShare`; "in sync" compares the distributed public
+polynomial; `dkg.Process.LastCompleted` only reads the finished record -/
+theorem tie_reconcileKeyFiles :
+    Gen.reconcileKeyFilesPersist = (if codeReconciles then reconcileKeyFilesCalls else []) ∧
+    Gen.reconcileInSync = (if codeReconciles then reconcileInSyncDefs else []) ∧
+    Gen.dkgLastCompletedPersist = (if codeReconciles then ["store.GetFinished"] else []) := by decide
 theorem tie_newHandler : Gen.newHandlerPersist = ["group.Find", "GenesisBeacon", "store.Put", "newChainStore"] := rfl
 /-- every bbolt file is opened with default options (fsync on commit) and nothing switches syncing off -/
 theorem tie_boltOpen : Gen.boltOpenOptions = ["nil", "nil", "nil"] ∧ Gen.boltNoSyncAssignments = 0 := ⟨rfl, rfl⟩
@@ -376,7 +391,7 @@ theorem c13_no_truncated_accepted_atomic (member : Nat → Bool) (d : Disk) (e :
   · intro k h; rw [h] at s2; simp [Loaded.sound] at s2
 
 /-- the three shapes of a self-consistent disk: fresh install, member of the last completed epoch, not a member -/
-private theorem start_shapes (member : Nat → Bool) (d : Disk)
+theorem start_shapes (member : Nat → Bool) (d : Disk)
     (h : Consistent member (recover asIs member d) = true) :
     (d.db.finished = none ∧ loadFile d.group = .missing ∧ loadFile d.share = .missing) ∨
     (∃ p, d.db.finished = some p ∧ member p = true ∧ loadFile d.group = .val p ∧ loadFile d.share = .val p) ∨
@@ -424,7 +439,7 @@ with the finished DKG record, so the statement fails at every crash point strict
   * `c13_remaining_windows_atomic` — atomicRename: every other cut is "dkg.db ahead of the key files" or "group of the new
                                     epoch with the share of the old one", nothing else (no torn / unreadable file),
   * `c13_window_counterexample_*` — concrete witnesses, replayed on real directories by the harness,
-  * `c13_files_one_epoch_fixed`   — the full statement for the corrected variant (reconcile at load).
+  * `c13_files_one_epoch_fixed`   — the full statement for the corrected variant (reconcile at load): C13Reconcile.lean.
 -/
 
 /-- For every crash point of a DKG completion started from a self-consistent disk, on a node that is in the new
@@ -670,54 +685,11 @@ example : Consistent (fun e => e == 1) (recover asIs (fun e => e == 1) exDisk) =
   ⟨by decide, fun m => ⟨(.after 3, .clean [0, 1, 2] ⟨.complete 2, some 2⟩ .absent .absent),
     by cases m <;> decide, by cases m <;> decide, by decide⟩⟩
 
-/-! ### the corrected variant: reconcile the key files from the finished DKG record at load -/
+/-! ### the corrected variant: reconcile the key files from the finished DKG record at load
 
-/-- FULL STATEMENT for the corrected variant. With reconciliation at load every crash point of a completion — member
-or not, torn files included, whichever file-write primitive — recovers self-consistently: atomicity of the one bbolt
-transaction is all it needs. -/
-theorem c13_files_one_epoch_fixed (m : WriteMode) (member : Nat → Bool) (d : Disk) (e : Nat)
-    (hstart : Consistent member (recover asIs member d) = true) :
-    (∀ x ∈ crashImages d (completionOps m e), Consistent member (recover fixed member x.2) = true) ∧
-    (∀ x ∈ crashImages d (evictionOps m e), Consistent member (recover fixed member x.2) = true) := by
-  have shapes := start_shapes member d hstart
-  clear hstart
-  obtain ⟨chain, ⟨cur, fin⟩, g, s, gt, st⟩ := d
-  cases m
-  · constructor
-    · intro x hx
-      simp [crashImages, crashImagesAux, completionOps, completionOpsIn, codeOrder, stageOps,
-        storeDKGOutputOps, saveGroupOps, saveShareOps, saveOps, creatorOps, createSecureFileOps, allClasses, apply,
-        Disk.setFile] at hx
-      rcases shapes with ⟨hf, hg, hs⟩ | ⟨p, hf, hp, hg, hs⟩ | ⟨p, hf, hp, hg, hs⟩ <;> simp only at hf hg hs <;> subst hf <;>
-        cases hm : member e <;>
-        rcases hx with hx | hx | hx | hx | hx | hx | hx | hx | hx | hx | hx | hx | hx | hx | hx <;> subst hx <;>
-        simp [Consistent, recover, fixed, reconcileFiles, startup, startupOutcome, bpLoadL, *]
-    · intro x hx
-      simp [crashImages, crashImagesAux, evictionOps, evictionOpsIn, codeOrder, stageOps, resetOps, apply,
-        Disk.setFile] at hx
-      rcases shapes with ⟨hf, hg, hs⟩ | ⟨p, hf, hp, hg, hs⟩ | ⟨p, hf, hp, hg, hs⟩ <;> simp only at hf hg hs <;> subst hf <;>
-        cases hm : member e <;>
-        rcases hx with hx | hx | hx | hx <;> subst hx <;>
-        simp [Consistent, recover, fixed, reconcileFiles, startup, startupOutcome, bpLoadL, *]
-  · constructor
-    · intro x hx
-      simp [crashImages, crashImagesAux, completionOps, completionOpsIn, codeOrder, stageOps,
-        storeDKGOutputOps, saveGroupOps, saveShareOps, saveOps, creatorOps, createSecureFileOps, File.tmp, allClasses, apply,
-        Disk.setFile, Disk.getFile] at hx
-      rcases shapes with ⟨hf, hg, hs⟩ | ⟨p, hf, hp, hg, hs⟩ | ⟨p, hf, hp, hg, hs⟩ <;> simp only at hf hg hs <;> subst hf <;>
-        cases hm : member e <;>
-        rcases hx with hx | hx | hx | hx | hx | hx | hx | hx | hx | hx | hx | hx | hx | hx | hx | hx | hx <;> subst hx <;>
-        simp [Consistent, recover, fixed, reconcileFiles, startup, startupOutcome, bpLoadL, *]
-    · intro x hx
-      simp [crashImages, crashImagesAux, evictionOps, evictionOpsIn, codeOrder, stageOps, resetOps, apply,
-        Disk.setFile] at hx
-      rcases shapes with ⟨hf, hg, hs⟩ | ⟨p, hf, hp, hg, hs⟩ | ⟨p, hf, hp, hg, hs⟩ <;> simp only at hf hg hs <;> subst hf <;>
-        cases hm : member e <;>
-        rcases hx with hx | hx | hx | hx | hx | hx <;> subst hx <;>
-        simp [Consistent, recover, fixed, reconcileFiles, startup, startupOutcome, bpLoadL, *]
-
-example : ∀ m, ∀ x ∈ crashImages exDisk (completionOps m 2), Consistent exMember (recover fixed exMember x.2) = true := by
-  intro m; cases m <;> decide
+DrandProofs/C13Reconcile.lean (imports this file): the start-up variant switch `Startup`, `reconcileOps` as the steps of the
+real `reconcileKeyFiles`, the FULL statement for the reconciling start-up over every crash point of every persistence
+sequence, a crash during the reconciliation itself included. -/
 
 /-! ### resuming -/
 
